@@ -20,7 +20,8 @@
    escaped the method; what it did before is kept).  Later loop iterations belong to C15.
    Not modelled: the 27 error flags cleared by `_reset`, the limit / rate warning bits of
    `update_status`, `next_pos` (always None here: no program-track table is active). *)
-From DS Require Import Base.Prelude Base.Bits Model.Utils Gen.AcmdTables Model.AcmdFrame.
+From DS Require Import Base.Prelude Base.Bits Model.Utils Gen.AcmdTables.
+From DS Require Import Model.AcmdFrame.
 From Flocq Require Import Core IEEE754.BinarySingleNaN IEEE754.Binary IEEE754.Bits.
 
 Definition f64 := BinarySingleNaN.binary_float 53 1024.
@@ -242,7 +243,9 @@ Definition run_handler (cfg : acfg) (h : mhandler) (ax : axis) (counter : Z) (p1
   | H_preset_relative =>
       let m1 := set_traj (set_cmc m counter) 6 in
       match py_round_int (fmul p1 (f_of_Z million)), py_round_int (fmul p2 (f_of_Z million)) with
-      | Some da, Some dr => after_move ax (move cfg m1 counter (p_Soll m1 + da) dr) counter 4
+      | Some da, Some dr =>
+          let base := if rel_from_p_Ist then p_Ist m1 else p_Soll m1 in
+          after_move ax (move cfg m1 counter (base + da) dr) counter 4
       | _, _ => (with_mo ax m1, TDied)
       end
   | H_slew =>
